@@ -1078,7 +1078,9 @@ class Interp:
             if isinstance(out, SRaise):
                 raise PyRaise(out.exc, [], note=f"per contract of {qualname}")
             raise Unsupported("contract outcome")
-        if fi.inline and fi.node is not None:
+        if fi.node is not None:
+            # a callee under contract is used by its contract (above); a callee without one is executed (inlined): sound, and a helper
+            # extracted by a refactoring does not push its caller out of the subset
             if self.call_depth > 6:
                 raise Unsupported("inline depth")
             self.call_depth += 1
